@@ -1,6 +1,11 @@
 package builtin
 
-import "github.com/open2b/scriggo/native"
+import (
+	"unicode"
+	"unicode/utf8"
+
+	"github.com/open2b/scriggo/native"
+)
 
 // C25: builtin functions honour their documentation and never panic instead
 // of returning an error.
@@ -185,6 +190,37 @@ func vc25_tokebab(n int) {
 	}
 }
 
+// CapitalizeAll and Capitalize against their documentation for every valid
+// UTF-8 string: the first letter of each word (of the string) in upper case
+// as Unicode defines it (case mappings are exact for every rune; the letter
+// and space classes above U+00FF are any consistent classification)
+func vc25_capitalizeall(n int) {
+	s := vsym_string(n)
+	vassume(utf8.ValidString(s))
+	var want []byte
+	prev := ' '
+	for _, r := range s {
+		u := r
+		if isSeparator(prev) {
+			u = unicode.ToUpper(r)
+		}
+		prev = r
+		want = utf8.AppendRune(want, u)
+	}
+	vassert(CapitalizeAll(s) == string(want), "capitalizeall-upper-cases-the-first-letter-of-each-word")
+	// Capitalize: the first non-separator rune in upper case, the rest unchanged
+	var want1 []byte
+	done := false
+	for _, r := range s {
+		if !done && !isSeparator(r) {
+			r = unicode.ToUpper(r)
+			done = true
+		}
+		want1 = utf8.AppendRune(want1, r)
+	}
+	vassert(Capitalize(s) == string(want1), "capitalize-upper-cases-the-first-non-separator")
+}
+
 // non-ASCII inputs: only absence of panics (Unicode classes are uninterpreted)
 func vc25_nopanic(n int) {
 	s := vsym_string(n)
@@ -211,4 +247,6 @@ func vh_c25_capitalize_t()    { vc25_capitalize(5) }
 func vh_c25_tokebab_q()       { vc25_tokebab(3) }
 func vh_c25_tokebab_t()       { vc25_tokebab(4) }
 func vh_c25_nopanic_q()       { vc25_nopanic(2) }
+func vh_c25_capitalizeall_q() { vc25_capitalizeall(3) }
+func vh_c25_capitalizeall_t() { vc25_capitalizeall(4) }
 func vh_c25_nopanic_t()       { vc25_nopanic(3) }
